@@ -262,6 +262,7 @@ O_<TN_, TA_, TH_, TS_...>::deepForwardActive(Control& control,
 	if (requested)
 		SubStates::wideForwardActive(control, request, requested);
 	else
+	if (request.destination == HEAD_ID)
 		// no prong addressed: this region itself is the destination
 		deepRequest					(control, request);
 }
@@ -278,7 +279,7 @@ O_<TN_, TA_, TH_, TS_...>::deepForwardRequest(Control& control,
 
 	const ProngCBits requested = orthoRequested(static_cast<const Control&>(control));
 
-	if (requested)
+	if (requested && request.destination != HEAD_ID)
 		SubStates::wideForwardRequest(control, request);
 	else
 		deepRequest					 (control, request);
@@ -331,10 +332,26 @@ O_<TN_, TA_, TH_, TS_...>::deepRequest(Control& control,
 template <typename TN_, typename TA_, typename TH_, typename... TS_>
 HFSM2_CONSTEXPR(14)
 void
+O_<TN_, TA_, TH_, TS_...>::requestAllProngs(Control& control) noexcept {
+	// a region resolved as a whole is marked so: later requests of the round then follow its requested sub-states
+	// instead of resolving it again by their own kind
+	ProngBits requested = orthoRequested(control);
+
+	for (Prong i = 0; i < WIDTH; ++i)
+		requested.set(i);
+}
+
+// - - - - - - - - - - - - - - - - - - - - - - - - - - - - - - - - - - - - - - -
+
+template <typename TN_, typename TA_, typename TH_, typename... TS_>
+HFSM2_CONSTEXPR(14)
+void
 O_<TN_, TA_, TH_, TS_...>::deepRequestChange(Control& control,
 											 const Request request) noexcept
 {
 	HFSM2_IF_TRANSITION_HISTORY(control.pinLastTransition(HEAD_ID, request.index));
+
+	requestAllProngs(control);
 
 	SubStates::wideRequestChange(control, request);
 }
@@ -349,6 +366,8 @@ O_<TN_, TA_, TH_, TS_...>::deepRequestRestart(Control& control,
 {
 	HFSM2_IF_TRANSITION_HISTORY(control.pinLastTransition(HEAD_ID, request.index));
 
+	requestAllProngs(control);
+
 	SubStates::wideRequestRestart(control, request);
 }
 
@@ -362,6 +381,8 @@ O_<TN_, TA_, TH_, TS_...>::deepRequestResume(Control& control,
 {
 	HFSM2_IF_TRANSITION_HISTORY(control.pinLastTransition(HEAD_ID, request.index));
 
+	requestAllProngs(control);
+
 	SubStates::wideRequestResume(control, request);
 }
 
@@ -374,6 +395,8 @@ O_<TN_, TA_, TH_, TS_...>::deepRequestSelect(Control& control,
 											 const Request request) noexcept
 {
 	HFSM2_IF_TRANSITION_HISTORY(control.pinLastTransition(HEAD_ID, request.index));
+
+	requestAllProngs(control);
 
 	SubStates::wideRequestSelect(control, request);
 }
@@ -390,6 +413,8 @@ O_<TN_, TA_, TH_, TS_...>::deepRequestUtilize(Control& control,
 {
 	HFSM2_IF_TRANSITION_HISTORY(control.pinLastTransition(HEAD_ID, request.index));
 
+	requestAllProngs(control);
+
 	SubStates::wideRequestUtilize(control, request);
 }
 
@@ -402,6 +427,8 @@ O_<TN_, TA_, TH_, TS_...>::deepRequestRandomize(Control& control,
 												const Request request) noexcept
 {
 	HFSM2_IF_TRANSITION_HISTORY(control.pinLastTransition(HEAD_ID, request.index));
+
+	requestAllProngs(control);
 
 	SubStates::wideRequestRandomize(control, request);
 }
